@@ -4,6 +4,7 @@
 # Applies each patch to /repo, runs the check, undoes the patch. Not part of the registered commands.
 # usage: tools/selftest.sh [ident...]      (default: all)
 cd /verif
+export OHV_EVIDENCE_DIR=/verif/harness/target/evidence-scratch
 git -C /repo diff --quiet || { echo "/repo has local changes"; exit 2; }
 trap 'git -C /repo checkout -- .' EXIT
 declare -A OWNER=( [revert-D1]="C15 C16 C17 C18" [revert-D2]="C17" [revert-D3]="C09" [revert-D4]="C08" [revert-D5]="C19" )
